@@ -172,6 +172,41 @@ Definition W64 : N := 18446744073709551616%N.
 Definition len_limit (p : params) : N :=
   ((N.of_nat (p_max p) + W64 - N.of_nat (bg_sz p) - N.of_nat chksum_sz) mod W64)%N.
 
+(* the rest of FIXReader::read once BodyLength has been converted: bound test, body, trailer *)
+Definition read_body (p : params) (to : list byte) (mlen : N) (s2 : sock) : outcome * sock :=
+  if (mlen =? 0)%N || (len_limit p <? mlen)%N then (OBadLen mlen, s2)     (* throw InvalidBodyLength(mlen) *)
+  else
+    let n := N.to_nat mlen in
+    (* sockRead(msg_buf, mlen); sockRead(msg_buf + mlen, _chksum_sz) *)
+    if p_max p <? n + chksum_sz then (OOob SiteMsgBuf, s2) else
+    match sock_read n s2 with
+    | (None, s3) => (OEos, s3)
+    | (Some body, s3) =>
+      match sock_read chksum_sz s3 with
+      | (None, s4) => (OEos, s4)
+      | (Some chk, s4) => (OMsg (to ++ body ++ chk), s4)   (* to.append(msg_buf, mlen + 7) *)
+      end
+    end.
+
+(* the part of FIXReader::read between the preamble loop and the body: the two extract_element
+   calls into char tag[MAX_MSGTYPE_FIELD_LEN], val[FIX8_MAX_FLD_LENGTH] *)
+Definition read_fields (p : params) (to : list byte) (s2 : sock) : outcome * sock :=
+  match extract_element p to with
+  | EEOob st => (OOob st, s2)
+  | EERet r1 tag1 val1 =>
+    if r1 =? 0 then (OIllegal to, s2)                  (* falls through to the final throw *)
+    else if negb (head_is tag1 56%N) then (OIllegal to, s2)        (* *tag != '8' *)
+    else if negb (list_eqb (cstr val1) (p_begin p)) then (OBadVersion (cstr val1), s2)
+    else
+      match extract_element p (skipn r1 to) with
+      | EEOob st => (OOob st, s2)
+      | EERet r2 tag2 val2 =>
+        if r2 =? 0 then (OIllegal to, s2)
+        else if negb (head_is tag2 57%N) then (OIllegal to, s2)    (* *tag != '9' *)
+        else read_body p to (atoi_u32 (cstr val2)) s2              (* mlen = fast_atoi<unsigned>(val) *)
+      end
+  end.
+
 Definition read_msg (p : params) (s : sock) : outcome * sock :=
   let bg := bg_sz p in
   (* char msg_buf[_max_msg_len] {};  sockRead(msg_buf, _bg_sz) *)
@@ -184,37 +219,7 @@ Definition read_msg (p : params) (s : sock) : outcome * sock :=
     | (PIllegal buf, s2) => (OIllegal (cstr buf), s2)      (* IllegalMessage(msg_buf): a C string *)
     | (POob, s2) => (OOob SiteMsgBuf, s2)
     | (PFuel, s2) => (OFuel, s2)
-    | (PDone to, s2) =>                                    (* to.assign(msg_buf, offs) *)
-      (* char tag[MAX_MSGTYPE_FIELD_LEN], val[FIX8_MAX_FLD_LENGTH]; *)
-      match extract_element p to with
-      | EEOob st => (OOob st, s2)
-      | EERet r1 tag1 val1 =>
-        if r1 =? 0 then (OIllegal to, s2)                  (* falls through to the final throw *)
-        else if negb (head_is tag1 56%N) then (OIllegal to, s2)        (* *tag != '8' *)
-        else if negb (list_eqb (cstr val1) (p_begin p)) then (OBadVersion (cstr val1), s2)
-        else
-          match extract_element p (skipn r1 to) with
-          | EEOob st => (OOob st, s2)
-          | EERet r2 tag2 val2 =>
-            if r2 =? 0 then (OIllegal to, s2)
-            else if negb (head_is tag2 57%N) then (OIllegal to, s2)    (* *tag != '9' *)
-            else
-              let mlen := atoi_u32 (cstr val2) in
-              if (mlen =? 0)%N || (len_limit p <? mlen)%N then (OBadLen mlen, s2)
-              else
-                let n := N.to_nat mlen in
-                (* sockRead(msg_buf, mlen); sockRead(msg_buf + mlen, _chksum_sz) *)
-                if p_max p <? n + chksum_sz then (OOob SiteMsgBuf, s2) else
-                match sock_read n s2 with
-                | (None, s3) => (OEos, s3)
-                | (Some body, s3) =>
-                  match sock_read chksum_sz s3 with
-                  | (None, s4) => (OEos, s4)
-                  | (Some chk, s4) => (OMsg (to ++ body ++ chk), s4)   (* to.append(msg_buf, mlen + 7) *)
-                  end
-                end
-          end
-      end
+    | (PDone to, s2) => read_fields p to s2                (* to.assign(msg_buf, offs) *)
     end
   end.
 
